@@ -811,6 +811,16 @@ func cmpMatch(fop token.Token, fx, fy ssa.Value, a VM, op token.Token, b VM) boo
 	return false
 }
 
+// isNonNegBuiltin: v is len(...) or cap(...).
+func isNonNegBuiltin(v ssa.Value) bool {
+	call, ok := v.(*ssa.Call)
+	if !ok {
+		return false
+	}
+	b, ok := call.Call.Value.(*ssa.Builtin)
+	return ok && (b.Name() == "len" || b.Name() == "cap")
+}
+
 func isUnsigned(v ssa.Value) bool {
 	b, ok := v.Type().Underlying().(*types.Basic)
 	return ok && b.Info()&types.IsUnsigned != 0
@@ -835,8 +845,8 @@ func CmpInt(a VM, op token.Token, n int64) FM {
 			return false
 		}
 		k := *kp
-		uns := isUnsigned(x)
-		// tighten facts on unsigned values
+		uns := isUnsigned(x) || isNonNegBuiltin(x)
+		// tighten facts on unsigned values (and on len/cap results, which are never negative)
 		if uns {
 			if cop == token.NEQ && k == 0 {
 				cop, k = token.GTR, 0
